@@ -2594,7 +2594,11 @@ static int cfg_opt_print_pff_indent(cfg_opt_t *opt, FILE *fp,
 
 	if (is_set(CFGF_COMMENTS, opt->flags) && opt->comment) {
 		cfg_indent(fp, indent);
-		fprintf(fp, "/* %s */\n", opt->comment);
+		/* An end-of-comment marker can only stem from a one-line comment */
+		if (strstr(opt->comment, "*/") && !strchr(opt->comment, '\n'))
+			fprintf(fp, "# %s\n", opt->comment);
+		else
+			fprintf(fp, "/* %s */\n", opt->comment);
 	}
 
 	if (opt->type == CFGT_SEC) {
